@@ -825,3 +825,18 @@ package gorm
 //@   in gorm.sortCallbacks gorm.(*processor).compile
 //@   min-sites 0
 //@   assert only-stable-sorts: false [C17]
+
+//@ # ---------- C12 (thin structural sweeps; they pin which conditions name the links, not what the database does) ----------
+//@ # A reference with a fixed value (polymorphic owner type) contributes its equality to the conditions of Delete and
+//@ # Replace; the value carried is that reference's fixed value.
+//@ site fixed-reference-values-become-conditions
+//@   match store Eq.Value
+//@   in gorm.(*Association).Delete gorm.(*Association).Replace
+//@   min-sites 4
+//@   assert carries-the-references-fixed-value: arg0 == ref.PrimaryValue [C12]
+//@ # The targets kept by a many-to-many Replace are identified by the fields the join table references.
+//@ site replace-identifies-targets-by-referenced-fields
+//@   match call schema.GetIdentityFieldValuesMapFromValues
+//@   in gorm.(*Association).Replace
+//@   min-sites 1
+//@   assert by-the-fields-the-join-table-references: arg2 == relPrimaryFields [C12]
